@@ -103,6 +103,12 @@ class Interp(object):
             if a.prefix is not None or b.prefix is not None:
                 if a is b:
                     return True
+                if a.prefix is not None and b.prefix is not None and a.prefix.get_id() == b.prefix.get_id():
+                    if len(a.items) != len(b.items):
+                        return False
+                    return B.z_and([self.eq(x, y) for x, y in zip(a.items, b.items)])
+                if a.prefix is not None and b.prefix is not None and a.prefix.sort() == b.prefix.sort() and len(a.items) == len(b.items):
+                    return B.z_and([a.prefix == b.prefix] + [self.eq(x, y) for x, y in zip(a.items, b.items)])
                 raise OutOfReach("equality of symbolic lists")
             if len(a.items) != len(b.items):
                 return False
